@@ -490,6 +490,7 @@ struct Agg {
     violations: Vec<(usize, u64, Vec<u64>, Violation)>, // (scenario idx, run idx, tape, violation)
     violation_count: u64,
     suppressed: u64,
+    digest_checksum: u64,
     audit: Vec<(usize, u64, u64)>, // (scenario idx, run idx, digest)
     harness_errors: Vec<String>,
 }
@@ -497,6 +498,8 @@ struct Agg {
 impl Agg {
     fn add(&mut self, si: usize, ri: u64, r: RunResult, audit: bool, known: &[KnownFinding], property: &str) {
         self.runs += 1;
+        // order-independent checksum over the event digests of all runs: equal for equal VERIF_SEED in any process / worker count
+        self.digest_checksum = self.digest_checksum.wrapping_add(mix(r.digest, ri ^ ((si as u64) << 48)));
         self.evals += r.evals.max(1);
         if r.vacuous {
             self.vacuous += 1;
@@ -553,6 +556,7 @@ impl Agg {
         self.violations.extend(o.violations);
         self.violation_count += o.violation_count;
         self.suppressed += o.suppressed;
+        self.digest_checksum = self.digest_checksum.wrapping_add(o.digest_checksum);
         self.audit.extend(o.audit);
         self.harness_errors.extend(o.harness_errors);
     }
@@ -831,6 +835,7 @@ pub fn run_check(spec: &CheckSpec, tier: Tier) -> i32 {
             "known_findings_reproduced": known_reproduced,
             "known_violations_suppressed": suppressed,
             "determinism_audit": {"runs": agg.audit.len(), "mismatches": audit_mismatch},
+            "run_digest_checksum": format!("{:016x}", agg.digest_checksum),
             "exhaustive": false,
         },
         "assumptions": spec.assumptions,
@@ -845,8 +850,8 @@ pub fn run_check(spec: &CheckSpec, tier: Tier) -> i32 {
         return 2;
     }
     println!(
-        "runs={} evaluations={} distinct_nontrivial={} vacuous={} violations={} known_suppressed={} audit={}/{} wall={:.1}s",
-        agg.runs, agg.evals, agg.sigs.len(), agg.vacuous, new_violations, suppressed, agg.audit.len(), audit_mismatch, wall
+        "runs={} evaluations={} distinct_nontrivial={} vacuous={} violations={} known_suppressed={} audit={}/{} checksum={:016x} wall={:.1}s",
+        agg.runs, agg.evals, agg.sigs.len(), agg.vacuous, new_violations, suppressed, agg.audit.len(), audit_mismatch, agg.digest_checksum, wall
     );
     if new_violations > 0 {
         1
